@@ -59,18 +59,24 @@ def d_tasks(msgs, tier):
     for m in msgs:
         sn, se = m.size_normal, m.size_extended
         strs = strings_of(m)
-        heavy = sum(f.strlen for f in strs) > 40
+        prod = 1
+        for f in strs:
+            prod *= f.strlen + 1
+        heavy = prod > 64
         if tier == 'quick':
             l2 = {0, 1, sn - 1, sn, se, se + 1, 255}
-            if heavy:
-                l2 = {0, 1, min(f.off for f in strs) + 1, se + 1 if se < 255 else 255}
             l1 = {0, sn - 1, sn, sn + 1}
+            if heavy:
+                l2 = {0, 1, min(f.off for f in strs) + 1}
+                l1 = {0, sn - 1, sn + 1}
             ks = [1]
         else:
             l2 = set(range(0, 256)) | {256, 300}
-            if heavy:
-                l2 = {0, 1, 2, sn - 1, sn, sn + 1, se - 1, se, se + 1, 255, 300} | set(range(0, 256, 16))
             l1 = {0, 1, sn - 1, sn, sn + 1, se, 255}
+            if heavy:
+                first = min(f.off for f in strs)
+                l2 = set(range(0, first + 3)) | {se + 1 if prod <= 4096 else 0}
+                l1 = {0, 1, sn - 1, sn + 1} | ({sn} if prod <= 4096 else set())
             ks = [1, 7]
         for n in sorted(x for x in l1 if 0 <= x):
             ts.append(Task('verifHarness_D_' + m.go, [0, n, 0, 0], pkg=m.pkgdir, group=m.pkgdir))
